@@ -390,6 +390,11 @@ def gen_hold_script(rng, nhosts=None):
                     ctl.append(["links"])
                     ctl.append(["deliver", a, b, rng.randrange(0, 5)])
             ctl.append(["links"])
+            if rng.random() < 0.3:
+                # hold again before the next tick: what was just scheduled by hand is still in flight and must be
+                # parked again (a second hold on an already held link is not a no-op; seed C08-A8)
+                ctl.append(["hold", rand_sel(rng, a), rand_sel(rng, b)])
+                ctl.append(["links"])
         rand_sends(rng, n, ids, hosts, [0, 1, 2, 2, 3])
         if rng.random() < 0.15:
             h = rng.randrange(n)
